@@ -20,7 +20,7 @@ typedef struct {
 
 #define NF 32
 static fiber_t fibers[NF + 1];
-static int inwq[NF + 1];      /* fiber sits in a wait queue outside the scheduler (blocked, wake-up not yet consumed) */
+static int inwq[NF + 1];      /* fiber is parked in a wait queue outside the scheduler (blocked and switched away from, wake-up not yet consumed) */
 static hcase_t* cur;
 static int nthreads;
 
@@ -43,7 +43,7 @@ static void prog(int t) {
       r = a;
     } else if (opc == 2 || opc == 4) {    /* 2: fiber_yield   4: block (state WAITING, then yield) */
       if (!current) { rt_event(k + 1, K_RET, -1); continue; }
-      if (opc == 4) { current->state = FIBER_STATE_WAITING; inwq[fid(current)] = 1; }
+      if (opc == 4) current->state = FIBER_STATE_WAITING;
       const fiber_state_t st = current->state;
       fiber_t* nf = fiber_scheduler_next(s);
       if (nf) {
@@ -52,8 +52,10 @@ static void prog(int t) {
         nf->state = FIBER_STATE_RUNNING;
         /* context switch; the successor's maintenance requeues the old fiber */
         if (to_schedule) fiber_scheduler_schedule(s, to_schedule);
+        else inwq[fid(current)] = 1;      /* the old fiber is now parked in its wait queue */
         current = nf;
       } else if (st == FIBER_STATE_WAITING) {
+        inwq[fid(current)] = 1;           /* parked */
         current = NULL;                   /* switch to the maintenance (scheduler loop) fiber */
       }
       r = fid(current);
